@@ -110,7 +110,7 @@ fn check_program(core: &mut Core, regime: Regime, name: &str, ctx: &mut Ctx) {
     }));
     if let Err(e) = stepped {
       let msg = crate::jitstep::panic_text(e);
-      if msg.starts_with("TRIED TO EXECUTE") {
+      if msg.starts_with("TRIED TO EXECUTE") || !pc_executable({ core.registers.ip } as u16) {
         // the generated program returned into non-executable memory (e.g. a handler ran with
         // SP on I/O registers): the guest left the domain of the property; stop this program
         ctx.count(6, 1);
@@ -224,7 +224,7 @@ fn check_program(core: &mut Core, regime: Regime, name: &str, ctx: &mut Ctx) {
   unsafe { libc::alarm(0) };
   if let Err(e) = framed {
     let msg = crate::jitstep::panic_text(e);
-    if !msg.starts_with("TRIED TO EXECUTE") {
+    if !(msg.starts_with("TRIED TO EXECUTE") || !pc_executable({ core.registers.ip } as u16)) {
       ctx.violation(&format!("C09 regime={} kind=panic", regime_name(regime)), || J::obj().set("case", J::obj().set("program", J::s(name)).set("step", J::s("run_frame"))).set("panic", J::s(msg.as_str())));
     }
     ctx.count(6, 1);
@@ -446,6 +446,13 @@ pub fn worker(args: &[String]) -> i32 {
   }
   eprintln!("C09 worker: bad arguments {:?}", args);
   2
+}
+
+/// where the guest may fetch instructions from: ROM, work RAM, high RAM.  A program that
+/// returns anywhere else has left the domain of the property; the emulator refuses to go on
+/// (by a panic whose wording is not relied upon here)
+fn pc_executable(pc: u16) -> bool {
+  pc < 0x8000 || (0xC000..0xE000).contains(&pc) || (0xFF80..0xFFFF).contains(&pc)
 }
 
 pub fn run(tier: &str) -> i32 {
